@@ -59,6 +59,7 @@ struct sticky_entry { char op[24]; int err; };
 static struct sticky_entry g_sticky[MAX_PLAN];
 static int g_nsticky = 0;
 static char g_sticky_prefix[PATH_LEN];
+static char g_xdev_parent[PATH_LEN];   /* FSX_XDEV_PARENT: entries directly in this directory live on "another file system" than everything else */
 
 /* ------------------------------------------------------------------------------------------ */
 
@@ -222,6 +223,8 @@ static void init_locked(void)
     }
     const char *sp = getenv("FSX_STICKY_PATH_PREFIX");
     if (sp && *sp) normalise(sp, g_sticky_prefix);
+    const char *xp = getenv("FSX_XDEV_PARENT");
+    if (xp && *xp) normalise(xp, g_xdev_parent);
     const char *plan = getenv("FSX_PLAN");
     if (plan && *plan) parse_plan(plan);
 }
@@ -273,6 +276,21 @@ static int sticky_for(const char *op, const char *p1)
     return 0;
 }
 
+/* an environment in which the entries directly inside one directory (the configuration directory) are on a different file system from
+ * everything else: a rename across that boundary fails with EXDEV */
+static int directly_in(const char *path, const char *dir)
+{
+    size_t n = strlen(dir);
+    if (!n || !path || strncmp(path, dir, n) != 0 || path[n] != '/') return 0;
+    return strchr(path + n + 1, '/') == NULL;
+}
+
+static int xdev_for(const char *op, const char *p1, const char *p2)
+{
+    if (!g_xdev_parent[0] || strcmp(op, "rename") != 0 || !p1 || !p2 || !*p2) return 0;
+    return directly_in(p1, g_xdev_parent) != directly_in(p2, g_xdev_parent) ? EXDEV : 0;
+}
+
 static void kill_self(void)
 {
     syscall(SYS_kill, (long)syscall(SYS_getpid), SIGKILL);
@@ -294,6 +312,7 @@ static int op_begin(struct opctx *c)
     c->k = g_counter++;
     c->pe = plan_for(c->k);
     int st = sticky_for(c->op, c->p1);
+    if (!st) st = xdev_for(c->op, c->p1, c->p2);
     if (c->pe)
     {
         switch (c->pe->a)
